@@ -42,6 +42,7 @@ def spec_universe(tier):
     specs = tg.leaf_specs()
     specs += tg.constrained_specs()
     specs += tg.literal_specs()
+    specs += tg.mixed_specs(routes=("cls", "ann") if tier == "thorough" else ("cls",))
     specs += tg.SHIPPED
     specs += tg.generic_specs(depth=2 if tier == "thorough" else 1,
                               elems=None if tier == "thorough" else tg.REP_ELEMS_Q)
